@@ -43,11 +43,12 @@ def required_cells(tier):
 
 
 def cases(rng, budget, widx, nworkers, tier):
+    sm = lambda: tier == "quick" or rng.random() < 0.5      # thorough: half of the bodies from the full families (prisms, bipyramids, general hulls)
     i = widx
     while True:
         k = KINDS[i % len(KINDS)]
         i += 1
-        d = ("VEC", gen.rdir(rng, 4)) if k == "VEC" else gen.rand_obj(rng, k, small=True)
+        d = ("VEC", gen.rdir(rng, 4)) if k == "VEC" else gen.rand_obj(rng, k, small=sm())
         yield {"d": d, "vs": rng.getrandbits(30), "ns": rng.getrandbits(30)}
 
 
